@@ -97,6 +97,35 @@ Theorem C19_inputlookup_confined : forall D f, is_dir D -> inputlookup_ok f = tr
   confined D (site_inputlookup D f) = true.
 Proof. exact site_inputlookup_confined. Qed.
 Print Assumptions C19_inputlookup_confined.
+(* ... and with ALL client-controlled options of the command (start, max, append, strict, where
+   clause, first command or not) and at EVERY cursor position of the processor (first batch:
+   cursor = start= option; later batches: rows read so far): a file is opened iff the validator
+   accepts the NAME, it is the joined lookup path, and it is confined.  The decision does not
+   depend on the options or the cursor. *)
+Theorem C19_inputlookup_all_options_iff : forall D o cursor f p,
+  inputlookup_open D o cursor f = Some p <-> inputlookup_ok f = true /\ p = site_inputlookup D f.
+Proof. exact inputlookup_open_iff. Qed.
+Print Assumptions C19_inputlookup_all_options_iff.
+Theorem C19_inputlookup_all_options_confined : forall D o cursor f p, is_dir D ->
+  inputlookup_open D o cursor f = Some p -> confined D p = true.
+Proof. exact inputlookup_open_confined. Qed.
+Print Assumptions C19_inputlookup_all_options_confined.
+Theorem C19_inputlookup_options_irrelevant : forall D o c o' c' f,
+  inputlookup_open D o c f = inputlookup_open D o' c' f.
+Proof. exact inputlookup_open_options_irrelevant. Qed.
+Print Assumptions C19_inputlookup_options_irrelevant.
+(* why it must not: validating "only before the first row" (cursor = 0) lets start=1 through *)
+Theorem C19_inputlookup_validate_at_cursor0_only_refuted : exists D o f p,
+  is_dir D /\ il_start o <> 0 /\ inputlookup_open D o (il_start o) f = None /\
+  inputlookup_open_cursor0 D o (il_start o) f = Some p /\ confined D p = false.
+Proof. exact inputlookup_cursor0_refuted. Qed.
+Print Assumptions C19_inputlookup_validate_at_cursor0_only_refuted.
+(* lookup upload with all its variants (extension of the uploaded file, overwrite, destination
+   already present): whatever is written is confined *)
+Theorem C19_lookup_upload_all_variants_confined : forall D name gz ow ex p, is_dir D ->
+  lookup_upload_open D name gz ow ex = Some p -> confined D p = true.
+Proof. exact lookup_upload_open_confined. Qed.
+Print Assumptions C19_lookup_upload_all_variants_confined.
 Theorem C19_inputlookup_guarded : forall D f, is_dir D -> stays_within 1 f = true ->
   confined D (site_inputlookup D f) = true.
 Proof. exact site_inputlookup_guarded. Qed.
